@@ -21,6 +21,13 @@ from mc.impl import h5ops, ih5
 
 worker_init = treeexp.worker_init
 
+
+def _fresh_dir(prefix):
+    """Scratch directory whose path contains the separators used in container file names ('.p', '.ih5')."""
+    d = os.path.join(env.fresh_dir(prefix), "data.prod", "v1.ih5.d")
+    os.makedirs(d)
+    return d
+
 MODES = ["r", "r+", "a", "w", "w-", "x"]
 
 
@@ -68,7 +75,7 @@ def _check_reopen(task):
     inp = {"cfg": cfg_name, "cls": kind, "history": hist}
     # view at the last commit (for the discard check) and final view
     last_b = max([i for i, op in enumerate(hist) if op[0] == "B"], default=None)
-    d = env.fresh_dir("r")
+    d = _fresh_dir("r")
     try:
         rec = cls(os.path.join(d, "rec"), "w")
         at_commit = None
@@ -96,7 +103,7 @@ def _check_reopen(task):
                 return _viol("A", "discard-reopen-view", "reopened view after discard differs from last commit", **inp), n
             rec.close()
             env.rmtree(d)
-            d = env.fresh_dir("r")
+            d = _fresh_dir("r")
             rec, _ = ih5lib.build(kind, hist, d=d)
             if ih5lib.dump(rec) != pre:
                 return _viol("A", "harness-nondet", "rebuilding the same history gave a different view", **inp), n
@@ -137,6 +144,34 @@ def _check_reopen(task):
                 r.close()
             if ih5lib.dir_hashes(d) != h0:
                 return _viol("A", "rplus-discard-files", "after r+ / discard_patch / close the directory differs from before", **inp), n
+        # r+ . discard . create_patch . write . close, then the record must reopen (r and r+) with the written state
+        n += 1
+        r = cls(forms[0][1], "r+")
+        try:
+            r.discard_patch()
+            r.create_patch()
+            r["/zz_after_discard"] = 77
+            exp_after = ih5lib.dump(r)
+            r.close()
+        except Exception as e:
+            try:
+                r.close(commit=False)
+            except Exception:
+                pass
+            return _viol("A", "discard-then-patch", f"r+ . discard_patch . create_patch . write . close raised {type(e).__name__}: {e}", **inp), n
+        h2 = ih5lib.dir_hashes(d)
+        if any(h2.get(k) != h0[k] for k in h0) or len([k for k in set(h2) - set(h0) if k.endswith(".ih5")]) != 1:
+            return _viol("A", "discard-then-patch-files", f"unexpected files after discard/create/write/close: new={sorted(set(h2) - set(h0))}", **inp), n
+        for mode in ("r", "r+"):
+            try:
+                r = cls(forms[0][1], mode)
+            except Exception as e:
+                return _viol("A", "reopen-after-discard-then-patch", f"record written after a discarded patch does not reopen with '{mode}': {type(e).__name__}: {e}", **inp), n
+            try:
+                if ih5lib.dump(r) != exp_after:
+                    return _viol("A", "reopen-after-discard-then-patch-view", f"view differs after reopening with '{mode}'", **inp), n
+            finally:
+                r.close(commit=False) if mode == "r+" else r.close()
         return None, n
     finally:
         try:
@@ -234,7 +269,7 @@ def check_cell(cell):
     form, fi = cell["argform"]
     cls = ih5.record_class(kind)
     nc, committed = SITUATIONS[sit]
-    d = env.fresh_dir("m")
+    d = _fresh_dir("m")
     name = cell.get("name", "foo")
     neigh = [cell.get("neigh_names", NEIGH_POOL)[i] for i in cell["neigh"]]
     nchecks = 0
